@@ -362,6 +362,23 @@ def d_value_info_everywhere(m):
 
 
 @_dev
+def d_initializer_value_info_type_only(m):
+    """An explicit value_info for a non-input initializer that is less specific than its tensor: a type without a shape."""
+    m.graph.value_info.add().CopyFrom(value_info("w", tensor_type(TP.FLOAT, None)))
+
+
+@_dev
+def d_initializer_value_info_symbolic(m):
+    """... and one whose dims are symbolic / unknown where the tensor is concrete, with a second initializer that has a name-only entry."""
+    s = onnx.TensorShapeProto()
+    s.dim.add().dim_param = "rows"
+    m.graph.value_info.add().CopyFrom(value_info("w", tensor_type(TP.FLOAT, s)))
+    m.graph.initializer.add().CopyFrom(tensor(TP.FLOAT, [2], "raw_data", name="w_bare"))
+    m.graph.value_info.add().CopyFrom(value_info("w_bare", None))
+    m.graph.node.add().CopyFrom(node("Identity", ["w_bare"], ["w_bare_o"], "n_w_bare"))
+
+
+@_dev
 def d_value_info_without_type(m):
     m.graph.value_info.add().CopyFrom(value_info("a", None, "only a doc string"))
 
@@ -858,9 +875,26 @@ def _norm_graph(g, is_main=False):
     keep = [vi for vi in g.value_info if vi.name in names and vi.name not in init_names]
     # value-info of initializers may be added by the library: drop on both sides unless it carries
     # information beyond what the tensor implies (doc, metadata, denotation, nested type)
+    implied = {}
+    for t in g.initializer:
+        iv = onnx.ValueInfoProto(name=t.name)
+        iv.type.tensor_type.elem_type = t.data_type
+        iv.type.tensor_type.shape.SetInParent()
+        for d in t.dims:
+            iv.type.tensor_type.shape.dim.add().dim_value = d
+        implied[t.name] = iv
     for vi in g.value_info:
-        if vi.name in init_names and (vi.doc_string or len(vi.metadata_props) or _has_denotation(vi.type)):
-            keep.append(vi)
+        if vi.name not in init_names:
+            continue
+        bare = onnx.ValueInfoProto(name=vi.name)
+        probe = onnx.ValueInfoProto()
+        probe.CopyFrom(vi)
+        if probe.HasField("doc_string") and probe.doc_string == "":
+            probe.ClearField("doc_string")
+        # droppable: exactly what the library adds by itself (the tensor's dtype and dims), or an entry that says nothing
+        if probe == implied[vi.name] or probe == bare:
+            continue
+        keep.append(vi)
     keep = sorted(keep, key=lambda v: v.name)
     del g.value_info[:]
     g.value_info.extend(keep)
